@@ -271,4 +271,33 @@ def _obligations(tier):
             claim="for each form, the rewritten field as written by token822_unparse is read by an RFC 822 reference reader as exactly the "
                   "rewritten token list (types and contents; folds are LF+space), hence lists the same mailboxes",
             expect_witnesses=["form_done", "reread"]),
+    ] + _grammar_obligations(tier)
+
+
+# ---- addrlist_grammar / grammar_stable: the address list is DERIVED from a bounded grammar with symbolic choices
+def _grammar_unwind(p):
+    n = p["NTOK"]
+    return {"strlen": 64, "substdio_put": 64, "vmain": 32, "same": 25, "same2": 26, "note2": 26, "note2.0": 4,
+            "comments_here": p["NC"] + 1, "mailbox": 4, "address_list": p.get("NM", 1) + 2, "g_finish": 30, "fpos": 4, "gotaddr": p["NTOK"] + 2, "gotaddr.1": 4, "gotaddr.2": 13, "grammar_assumptions": 32, "reference_read": 58,
+            "token822_unquote.1": 4}
+
+
+def _grammar_obligations(tier):
+    common = dict(
+        progs=[Prog("qmail-inject.c", nomain=True)],
+        repo=["token822.c", "stralloc_opyb.c", "stralloc_copy.c", "stralloc_cats.c", "stralloc_catb.c", "stralloc_opys.c", "byte_copy.c"],
+        lib=["harness/C17/arena_small.c", "ideal_substdio.c"],
+        sysrename=["malloc", "realloc", "_exit"],
+        backend="cadical")
+    listprogs = dict(common)
+    listprogs["progs"] = [Prog("qmail-inject.c", nomain=True), Prog("token822.c", cut=["gotaddr"], link=True)]
+    listprogs["repo"] = [f for f in common["repo"] if f != "token822.c"]
+    return [
+        Obl("addrlist_grammar", "addrlist_grammar.c",
+            defines={"ARENA_SLOTS": 1, "ARENA_CAP": 64},
+            grid=[{"NM": 1, "NTOK": 8, "NC": 1}, {"NM": 2, "NTOK": 8, "NC": 1}, {"NM": 2, "NTOK": 10, "NC": 2}, {"NM": 3, "NTOK": 8, "NC": 1}],
+            unwind=_grammar_unwind, unwind_default=lambda p: p["NTOK"] + 4,
+            timeout=600,
+            claim="x",
+            expect_witnesses=["derived"], **listprogs),
     ]
